@@ -165,7 +165,7 @@ func genBlocking(r *repo) string {
 	w.WriteString("]\n\n")
 	lst := func(s []string) string { return "[" + strings.Join(s, ", ") + "]" }
 	w.WriteString("/-- skeleton of client_routine_pool.go -/\ndef poolSkel : PoolSkel where\n")
-	fmt.Fprintf(&w, "  initialize := %s\n  close := %s\n  errorChan := %s\n  add := %s\n  addGo := %s\n  addSelect := %s\n\n",
+	fmt.Fprintf(&w, "  init := %s\n  close := %s\n  errorChan := %s\n  add := %s\n  addGo := %s\n  addSelect := %s\n\n",
 		lst(sk.poolInitialize), lst(sk.poolClose), lst(sk.poolErrorChan), lst(sk.poolAdd), lst(sk.poolAddGo), lst(sk.poolAddSelect))
 	w.WriteString("/-- skeleton of Client.Start / Close / Wait / run / runInner (client.go) -/\ndef clientSkel : ClientSkel where\n")
 	var arms []string
